@@ -72,6 +72,22 @@ fn emit_for(t: &mut TraceOut, a: &[f64], n: usize, cls: &str, spd: bool) {
                                   "matrix_is_scaled_factor": m2.as_ref().map(|l| same_bits(&l.data, &want)).unwrap_or(false)}));
                 }
             }
+            // symmetric up to the last bit: one entry above (then below) the diagonal moved by one ulp - still symmetric by the code's own
+            // relative test. Which triangle is read is part of the contract shared by the two levels (LSpec: Chol reads a[i][j], j <= i):
+            // the slice-level and the Matrix-level routine agree on acceptance and return the same factor, bit for bit
+            if n >= 2 {
+                for (r, cidx, tag) in [(0usize, n - 1, "upper"), (n - 1, 0usize, "lower"), (0, 1, "upper"), (1, 0, "lower")] {
+                    let mut a2 = a.to_vec();
+                    let e = a2[r * n + cidx];
+                    if e == 0.0 || !e.is_finite() { continue; }
+                    a2[r * n + cidx] = f64::from_bits(e.to_bits() + 1);
+                    let am2 = mk(Vector::new(a2.clone()), n, n);
+                    let c2 = guard(|| cholesky(&a2));
+                    let m2 = guard(|| am2.cholesky());
+                    t.emit(json!({"kind": "chol_nearsym", "cls": cls, "call": tag, "n": n, "a": aj, "moved": [r, cidx], "slice_ok": c2.is_some(), "matrix_ok": m2.is_some(),
+                                  "same": match (&c2, &m2) { (Some(l), Some(m)) => same_bits(l, &m.data), (None, None) => true, _ => false }}));
+                }
+            }
         } else {
             // not positive definite: must be rejected, never a (non-finite) factor
             let fac = |l: &Option<Vec<f64>>| match l { Some(l) => (projrs_scaled(l, 4096), projrs_scaled(&matmul(l, l, n, n, false, true), 64)), None => (json!([]), json!([])) };
